@@ -195,6 +195,9 @@ def r2_readdir(ctx, F):
                 if any("discr(" in g and g.endswith("==1") for g in gs) or body.name in ("inspect_err",):
                     err_handled = True
     uses_inspect_only = any(c.name == "inspect" for c in live_calls(cl)) and not any(c.name in ("inspect_err", "map_err", "or_else") for c in live_calls(cl))
+    # the producer reports a consumer error only if no entry (with its reference) was delivered before
+    from rules import c16
+    c16.err_first_only(ctx, F, "R2-readdir-pairing")
     ctx.check("R2-readdir-pairing", "readdirplus/on-error", err_handled or not uses_inspect_only or bool(direct),
               "readdirplus releases the reference only through Result::inspect (Ok values): when the reply callback fails the entry was not "
               "delivered but its lookup reference is kept", loc=cl.loc())
